@@ -59,3 +59,11 @@ package store
 //@ func (p *refPool) release
 //@   props C16
 //@   ensures[C16] err == nil ==> result0 >= 0
+
+// ---- C16: a lookup is never aborted because some other layer of the image failed to resolve ----
+// The per-layer worker of getLayer reports only a found layer (on resultChan); it never sends on errChan, so the select
+// in getLayer ends with the wanted layer, the timeout, or "all workers done".
+//@ func (r *LayerManager) getLayer$1
+//@   props C16
+//@   requires r != nil && resultChan != nil
+//@   ensures[C16] forall c ref :: c != ref(resultChan) ==> sent(c) == old(sent(c))
